@@ -14,8 +14,8 @@
               (insert/validation.rs), the NOT NULL check of [RowValidator], then
               [Table::insert] = [RowNormalizer::normalize_and_validate]
               (vibesql-storage/src/table/normalization.rs)
-      errors  every failure is reported through [truncate_for_error(trimmed, 100)], which slices
-              [&s[..100]] by bytes and panics inside a multi-byte character.
+      errors  every failure is reported through [truncate_for_error(trimmed, 100)], which cuts the
+              statement at the last character boundary at or before byte 100 (no panic).
 
     Results: [OOk] / [OErr] ([Err(ExecutorError)]) / [OPanic] / [OAbstain].  [OAbstain] marks input
     outside the modelled fragment (other statement kinds, column lists, expressions that are not
@@ -350,6 +350,15 @@ Definition pad_spaces (n : Z) (s : str) : str := s ++ repeat 32 (Z.to_nat n - le
 Definition byte_prefix (n : Z) (s : str) : ores str :=
   match bslice_to n s with Some p => OOk p | None => OPanic end.
 
+(** [let mut end = n; while !s.is_char_boundary(end) { end -= 1 }; &s[..end]] for [n <= s.len()]:
+    the longest prefix of whole characters that fits in [n] bytes *)
+Fixpoint floor_chars (n : Z) (s : str) : nat :=
+  match s with
+  | [] => O
+  | c :: r => if width c <=? n then S (floor_chars (n - width c) r) else O
+  end.
+Definition byte_floor_prefix (n : Z) (s : str) : str := firstn (floor_chars n s) s.
+
 (** [coerce_value] (insert/validation.rs), arm by arm.  The three arms that turn a NUMERIC
     literal into an integer use float arithmetic ([fract], range tests, [as i64]) that is not
     modelled: they abstain (a dump never prints a non-integer literal for an integer column). *)
@@ -391,7 +400,8 @@ Definition coerce_value (v : sqlvalue) (t : dtype) : ores sqlvalue :=
   | VSmallint i, TBigint => OOk (VBigint i)
   | VInteger i, TBigint => OOk (VBigint i)
   | VVarchar s, TChar n =>
-      if n <? blen s then obind (byte_prefix n s) (fun p => OOk (VCharacter p))
+      (* length compared in BYTES; cut on a character boundary, or padded to [n] characters *)
+      if n <? blen s then OOk (VCharacter (byte_floor_prefix n s))
       else OOk (VCharacter (pad_spaces n s))
   | VCharacter s, TVarchar _ => OOk (VVarchar (trim_end_by is_ws s))
   | _, _ => OErr
@@ -399,7 +409,8 @@ Definition coerce_value (v : sqlvalue) (t : dtype) : ores sqlvalue :=
 
 (** [RowNormalizer::validate_and_normalize_value] for a non-NULL value: the variant must be the
     column type's own (DATE/TIME/TIMESTAMP columns also take strings, which [coerce_value] has
-    already converted), CHAR is padded / cut to [n] bytes, VARCHAR(n) is cut to [n] bytes *)
+    already converted), CHAR is padded / cut to [n] CHARACTERS ([normalize_char_value] counts
+    [chars()]), VARCHAR(n) is cut to [n] bytes ([&s[..n]], which can panic) *)
 Definition normalize_value (v : sqlvalue) (t : dtype) : ores sqlvalue :=
   match t, v with
   | _, VNull => OOk v
@@ -409,8 +420,8 @@ Definition normalize_value (v : sqlvalue) (t : dtype) : ores sqlvalue :=
   | TBoolean, VBoolean _ | TDate, VDate _ _ _ | TTime _, VTime _ _ _ _
   | TTimestamp _, VTimestamp _ _ _ _ _ _ _ | TInterval _, VInterval _ _ _ => OOk v
   | TChar n, VCharacter s =>
-      if blen s <? n then OOk (VCharacter (pad_spaces n s))
-      else if n <? blen s then obind (byte_prefix n s) (fun p => OOk (VCharacter p))
+      if Z.of_nat (length s) <? n then OOk (VCharacter (pad_spaces n s))
+      else if n <? Z.of_nat (length s) then OOk (VCharacter (firstn (Z.to_nat n) s))
       else OOk v
   | TVarchar (Some n), VVarchar s =>
       if n <? blen s then obind (byte_prefix n s) (fun p => OOk (VVarchar p)) else OOk v
@@ -483,11 +494,9 @@ Definition exec_create (name : str) (cols : list column) (db : list table) : ore
   else if negb (names_distinct (map c_name cols)) then OAbstain
   else OOk (db ++ [mk_table name cols []]).
 
-(** the error paths of [load_sql_dump] format [truncate_for_error(trimmed, 100)] *)
-Definition fail_with (trimmed : str) : ores (list table) :=
-  if 100 <? blen trimmed then
-    match bslice_to 100 trimmed with Some _ => OErr | None => OPanic end
-  else OErr.
+(** the error paths of [load_sql_dump] format [truncate_for_error(trimmed, 100)], which now cuts on
+    a character boundary: the outcome is [Err] whatever the statement text *)
+Definition fail_with (trimmed : str) : ores (list table) := OErr.
 
 Definition or_fail (trimmed : str) (r : ores (list table)) : ores (list table) :=
   match r with OErr => fail_with trimmed | _ => r end.
